@@ -307,6 +307,18 @@ func (s *TermStore) Bin(op Op, x, y *Term) *Term {
 	if (op == OpAdd || op == OpMul || op == OpAnd || op == OpOr || op == OpXor) && x.IsConst() {
 		x, y = y, x // canonical: constant on the right
 	}
+	if op == OpOr || op == OpAdd || op == OpXor {
+		// (A << c) | B with B < 2^c  ==  concat(A[w-c-1:0], B[c-1:0])
+		for i := 0; i < 2; i++ {
+			if x.op == OpShl && x.b.IsConst() && x.b.k > 0 && x.b.k < uint64(w) {
+				c := int(x.b.k)
+				if _, hi, ok := urange(y); ok && hi < uint64(1)<<uint(c) {
+					return s.Concat(s.Extract(x.a, int(w)-c-1, 0), s.Extract(y, c-1, 0))
+				}
+			}
+			x, y = y, x
+		}
+	}
 	// and with low mask of a zext / shifts: leave to the solver
 	return s.mk(op, w, x, y, nil, 0)
 }
@@ -349,6 +361,9 @@ func (s *TermStore) Extract(x *Term, hi, lo int) *Term {
 		}
 		if x.op == OpZExt && lo >= int(x.a.w) {
 			return Const(int(w), 0)
+		}
+		if x.op == OpZExt && lo == 0 {
+			return s.ZExt(x.a, int(w))
 		}
 	case OpConcat:
 		bw := int(x.b.w)
@@ -417,6 +432,9 @@ func (s *TermStore) Concat(hi, lo *Term) *Term {
 	}
 	if hi.IsConst() && hi.k == 0 {
 		return s.ZExt(lo, w)
+	}
+	if hi.op == OpZExt {
+		return s.ZExt(s.Concat(hi.a, lo), w)
 	}
 	return s.mk(OpConcat, uint8(w), hi, lo, nil, 0)
 }
@@ -725,12 +743,24 @@ func (s *TermStore) FIsNaN(x *Term) *Term {
 	if x.IsConst() {
 		return Bool(math.IsNaN(fval(x.k, x.w)))
 	}
+	if x.op == OpSIToF || x.op == OpUIToF {
+		return tFalse // integers convert to finite numbers
+	}
+	if x.op == OpF32to64 || x.op == OpF64to32 {
+		return s.FIsNaN(x.a)
+	}
 	return s.mk(OpFIsNaN, 0, x, nil, nil, 0)
 }
 
 func (s *TermStore) FIsInf(x *Term) *Term {
 	if x.IsConst() {
 		return Bool(math.IsInf(fval(x.k, x.w), 0))
+	}
+	if x.op == OpSIToF || x.op == OpUIToF {
+		return tFalse // |x| < 2^64 is below the largest finite float32 and float64
+	}
+	if x.op == OpF32to64 {
+		return s.FIsInf(x.a)
 	}
 	return s.mk(OpFIsInf, 0, x, nil, nil, 0)
 }
@@ -974,7 +1004,41 @@ func fpSort(w uint8) string {
 	return "11 53"
 }
 
-func toFP(t *Term) string { return fmt.Sprintf("((_ to_fp %s) %s)", fpSort(t.w), ref(t)) }
+// fpProducing reports whether the term is the result of a floating-point operation; such
+// terms are defined twice in the solver: tNf (FloatingPoint sort) and tN (its bit pattern),
+// so that chains of FP operations do not round-trip through fp.to_ieee_bv.
+func fpProducing(t *Term) bool {
+	switch t.op {
+	case OpF64to32, OpF32to64, OpSIToF, OpUIToF, OpFAdd, OpFSub, OpFMul, OpFDiv:
+		return true
+	}
+	return false
+}
+
+func toFP(t *Term) string {
+	if fpProducing(t) {
+		return fmt.Sprintf("t%df", t.id)
+	}
+	return fmt.Sprintf("((_ to_fp %s) %s)", fpSort(t.w), ref(t))
+}
+
+// fpBodySMT gives the FloatingPoint-sorted defining expression of an fp-producing term.
+func fpBodySMT(t *Term) string {
+	switch t.op {
+	case OpF64to32:
+		return fmt.Sprintf("((_ to_fp 8 24) RNE %s)", toFP(t.a))
+	case OpF32to64:
+		return fmt.Sprintf("((_ to_fp 11 53) RNE %s)", toFP(t.a))
+	case OpSIToF:
+		return fmt.Sprintf("((_ to_fp %s) RNE %s)", fpSort(t.w), ref(t.a))
+	case OpUIToF:
+		return fmt.Sprintf("((_ to_fp_unsigned %s) RNE %s)", fpSort(t.w), ref(t.a))
+	case OpFAdd, OpFSub, OpFMul, OpFDiv:
+		n := map[Op]string{OpFAdd: "fp.add", OpFSub: "fp.sub", OpFMul: "fp.mul", OpFDiv: "fp.div"}[t.op]
+		return fmt.Sprintf("(%s RNE %s %s)", n, toFP(t.a), toFP(t.b))
+	}
+	panic("fpBodySMT")
+}
 
 var binNames = map[Op]string{
 	OpAdd: "bvadd", OpSub: "bvsub", OpMul: "bvmul", OpUDiv: "bvudiv", OpURem: "bvurem",
@@ -1018,18 +1082,13 @@ func bodySMT(t *Term) string {
 		// non-NaN: RNE rounding; NaN: sign, all-ones exponent, quiet bit, top 22 payload bits (amd64 cvtsd2ss)
 		x := ref(t.a)
 		nan := fmt.Sprintf("(concat ((_ extract 63 63) %s) #xff #b1 ((_ extract 50 29) %s))", x, x)
-		return fmt.Sprintf("(ite (fp.isNaN %s) %s (fp.to_ieee_bv ((_ to_fp 8 24) RNE %s)))", toFP(t.a), nan, toFP(t.a))
+		return fmt.Sprintf("(ite (fp.isNaN %s) %s (fp.to_ieee_bv t%df))", toFP(t.a), nan, t.id)
 	case OpF32to64:
 		x := ref(t.a)
 		nan := fmt.Sprintf("(concat ((_ extract 31 31) %s) #b11111111111 #b1 ((_ extract 21 0) %s) #b00000000000000000000000000000)", x, x)
-		return fmt.Sprintf("(ite (fp.isNaN %s) %s (fp.to_ieee_bv ((_ to_fp 11 53) RNE %s)))", toFP(t.a), nan, toFP(t.a))
-	case OpSIToF:
-		return fmt.Sprintf("(fp.to_ieee_bv ((_ to_fp %s) RNE %s))", fpSort(t.w), ref(t.a))
-	case OpUIToF:
-		return fmt.Sprintf("(fp.to_ieee_bv ((_ to_fp_unsigned %s) RNE %s))", fpSort(t.w), ref(t.a))
-	case OpFAdd, OpFSub, OpFMul, OpFDiv:
-		n := map[Op]string{OpFAdd: "fp.add", OpFSub: "fp.sub", OpFMul: "fp.mul", OpFDiv: "fp.div"}[t.op]
-		return fmt.Sprintf("(fp.to_ieee_bv (%s RNE %s %s))", n, toFP(t.a), toFP(t.b))
+		return fmt.Sprintf("(ite (fp.isNaN %s) %s (fp.to_ieee_bv t%df))", toFP(t.a), nan, t.id)
+	case OpSIToF, OpUIToF, OpFAdd, OpFSub, OpFMul, OpFDiv:
+		return fmt.Sprintf("(fp.to_ieee_bv t%df)", t.id)
 	}
 	panic(fmt.Sprintf("bodySMT: unhandled op %d", t.op))
 }
